@@ -40,6 +40,37 @@ PATTERN_NAMES = [
 ]
 
 
+# INDEPENDENT keyword tables (not read from /repo): ISO/IEC 9899:2011 6.4.1 and ISO/IEC 14882:2020 [lex.key] (+ alternative tokens,
+# [lex.digraph]) and the identifiers with special meaning.  Deleting a keyword from properties.yaml leaves it in the hostile pool, so the
+# generated code stops compiling.  (If C09 commits a Coq keyword table, `iso_keywords_from_coq` cross-checks these lists against it.)
+ISO_C11_KEYWORDS = ('auto break case char const continue default do double else enum extern float for goto if inline int long register restrict '
+                    'return short signed sizeof static struct switch typedef union unsigned void volatile while _Alignas _Alignof _Atomic _Bool '
+                    '_Complex _Generic _Imaginary _Noreturn _Static_assert _Thread_local').split()
+ISO_CPP20_KEYWORDS = ('alignas alignof asm auto bool break case catch char char8_t char16_t char32_t class concept const consteval constexpr '
+                      'constinit const_cast continue co_await co_return co_yield decltype default delete do double dynamic_cast else enum explicit '
+                      'export extern false float for friend goto if inline int long mutable namespace new noexcept nullptr operator private '
+                      'protected public register reinterpret_cast requires return short signed sizeof static static_assert static_cast struct '
+                      'switch template this thread_local throw true try typedef typeid typename union unsigned using virtual void volatile '
+                      'wchar_t while and and_eq bitand bitor compl not not_eq or or_eq xor xor_eq').split()
+
+
+def iso_keywords_from_coq(verif: str) -> typing.Dict[str, typing.List[str]]:
+    """keyword tables committed in Coq by C09, if present (definitions named *c11_keywords* / *cpp20_keywords* with `(* word *)` comments)"""
+    out: typing.Dict[str, typing.List[str]] = {}
+    d = os.path.join(verif, 'coq', 'theories', 'Gen')
+    try:
+        names = [n for n in os.listdir(d) if n.endswith('.v')]
+    except OSError:
+        return out
+    for n in names:
+        txt = open(os.path.join(d, n), encoding='utf-8', errors='replace').read()
+        for key in ('c11_keywords', 'cpp20_keywords', 'cpp20_alternative_tokens', 'py312_keywords', 'py312_soft_keywords'):
+            m = re.search(r'Definition \w*%s\w* : list str :=(.*?)\](?:%%N)?\.\s' % key, txt, flags=re.S)
+            if m:
+                out[key] = re.findall(r'\(\* (\S+) \*\)', m.group(1))
+    return out
+
+
 def load_properties(repo: str) -> dict:
     with open(os.path.join(repo, 'src', 'nunavut', 'lang', 'properties.yaml'), encoding='utf-8') as f:
         return yaml.safe_load(f)
@@ -61,6 +92,9 @@ def pools(repo: str) -> typing.Dict[str, typing.List[str]]:
     py_res = sorted(set(list(keyword.kwlist) + dir(builtins)))
     out['c_reserved'] = sorted({w for w in c_res + cpp_res if dsdl_ok(w)})
     out['py_reserved'] = sorted({w for w in py_res if dsdl_ok(w)})
+    coq = iso_keywords_from_coq(os.path.dirname(os.path.dirname(os.path.dirname(os.path.abspath(__file__)))))
+    out['iso_keywords'] = sorted({w for w in list(ISO_C11_KEYWORDS) + list(ISO_CPP20_KEYWORDS) + [w for k in coq for w in coq[k]]
+                                  if dsdl_ok(w)})
     out['pattern'] = [w for w in PATTERN_NAMES if dsdl_ok(w)]
     out['plain'] = list(PLAIN)
     return out
@@ -110,7 +144,7 @@ class Gen:
         r = self.rng
         for _ in range(200):
             if r.random() < self.hostile:
-                pool = r.choice(['c_reserved', 'py_reserved', 'pattern', 'pattern'])
+                pool = r.choice(['c_reserved', 'iso_keywords', 'py_reserved', 'pattern', 'pattern'])
             else:
                 pool = 'plain'
             n = r.choice(self.pools[pool])
@@ -316,6 +350,10 @@ def corpus() -> typing.List[dict]:
             'None.1.0.dsdl': 'uint8 str\nuint8 id\nfloat32 def\nbool[3] register\nint8 _Upper\nuint8 __dunder\nuint8 x__y\n@sealed\n',
             'goto/double.1.0.dsdl': 'class.None.1.0 long\nclass.None.1.0[<=2] short\nvolatile.static.1.0 return\n@sealed\n',
             'goto/for/while/do/if.1.0.dsdl': 'class.goto.double.1.0 else\nuint8 namespace\nuint8 operator\nuint8 new\nuint8 delete\n@extent 4096 * 8\n',
+            # every ISO C11 / C++20 keyword and alternative token (independent table above) that pydsdl accepts, as a field name
+            # (two types: `_Alignas` and `alignas` strop to the same identifier, which would fall under the stropping-fold exclusion)
+            'KeywordsC.1.0.dsdl': ''.join('uint8 %s\n' % w for w in sorted(set(ISO_C11_KEYWORDS)) if dsdl_ok(w)) + '@sealed\n',
+            'KeywordsCpp.1.0.dsdl': ''.join('uint8 %s\n' % w for w in sorted(set(ISO_CPP20_KEYWORDS)) if dsdl_ok(w)) + '@sealed\n',
             'lambda.1.0.dsdl': '@union\nuint8 del\nuint16 pass\nclass.None.1.0 yield\n@sealed\n',
             'import.1.0.dsdl': 'uint8 from\n@sealed\n---\n@union\nuint8 as\nfloat64 global\n@sealed\n',
             'NotImplemented.1.0.dsdl': 'uint8 Ellipsis = 1\nuint8 NULL = 2\nint64 EOF = -9223372036854775808\nuint8 uint8_t\nuint8 size_t\nuint8 errno\n@sealed\n',
